@@ -244,37 +244,77 @@ pub fn run(rng: &mut Rng, tier: &str, out: &str) -> Report {
         let enc = ENCODINGS[fi % 4];
         let nch = rng.range(1, 3) as usize;
         let mut w = write_file(rng, enc, nch, fi % 2 == 0);
-        let mut targets: Vec<(String, Vec<u8>)> = vec![("save+incremental".into(), w.file.clone())];
-        // a bundle and the (possibly compressed) bytes of the largest change
+        // every target is loadable on its own by Automerge::load: a save followed by incremental saves, a bundle
+        // of the whole history, and single ROOT changes (no dependencies), raw and DEFLATE-compressed.  A change
+        // that has dependencies is not a loadable document by itself, and Change::from_bytes is not a load
+        // (it does not verify the checksum and is not asked to by the property).
+        let mut targets: Vec<(String, Vec<u8>, bool)> = vec![("save+incremental".into(), w.file.clone(), false)];
         let changes = w.writer.get_changes(&[]);
         let hashes: Vec<ChangeHash> = changes.iter().map(|c| c.hash()).collect();
         if let Ok(b) = w.writer.bundle(hashes.iter().copied()) {
-            targets.push(("bundle".into(), b.bytes().to_vec()));
+            targets.push(("bundle".into(), b.bytes().to_vec(), false));
         }
-        if let Some(mut big) = changes.iter().max_by_key(|c| c.raw_bytes().len()).cloned() {
-            targets.push(("change.bytes()".into(), big.bytes().to_vec()));
+        if let Some(root) = changes.iter().find(|c| c.deps().is_empty()) {
+            targets.push(("root change raw_bytes()".into(), root.raw_bytes().to_vec(), false));
         }
-        for (what, data) in targets {
-            let orig = match load_strict(&data, enc) {
-                Ok(Ok(d)) => fingerprint(&d, &w.cands),
+        {
+            let mut bigdoc = AutoCommit::new_with_encoding(enc).with_actor(gen::actor(rng, 3));
+            let text: String = (0..rng.range(300, 500)).map(|i| (b'a' + ((i * 7 + fi as u64) % 26) as u8) as char).collect();
+            let _ = automerge::transaction::Transactable::put(&mut bigdoc, automerge::ROOT, "t", text);
+            bigdoc.commit();
+            if let Some(mut c) = bigdoc.get_changes(&[]).into_iter().next() {
+                let b = c.bytes().to_vec();
+                if b.len() > 8 && b[8] == 2 {
+                    rep.count("c14_compressed_changes");
+                    targets.push(("compressed root change bytes()".into(), b, false));
+                }
+            }
+        }
+        let load_any = |m: &[u8], is_change: bool| -> Result<Result<String, String>, PanicInfo> {
+            if is_change {
+                guard(|| Change::from_bytes(m.to_vec()).map(|c| format!("{}:{}", c.hash(), hex(c.raw_bytes()))).map_err(|e| e.to_string()))
+            } else {
+                // reading an accepted document happens under the guard too: a document that loads but panics
+                // when read is a failure of the load, not of the harness
+                guard(|| {
+                    Automerge::load_with_options(m, LoadOptions::new().on_partial_load(OnPartialLoad::Error).text_encoding(enc))
+                        .map(|d| fingerprint(&d, &w.cands))
+                        .map_err(|e| e.to_string())
+                })
+            }
+        };
+        for (what, data, is_change) in targets {
+            let orig = match load_any(&data, is_change) {
+                Ok(Ok(fp)) => fp,
                 _ => {
                     rep.fail(&["C14", "C11"], "store|own-output-rejected", &format!("the library's own {} does not load", what), json!({"bytes": hex(&data)}));
                     continue;
                 }
             };
-            let ty_at = |pos: usize| chunk_spans(&data).iter().find(|s| s.0 <= pos && pos < s.1).map(|s| s.2).unwrap_or(255);
+            let spans = chunk_spans(&data);
+            let ty_at = |pos: usize| spans.iter().find(|s| s.0 <= pos && pos < s.1).map(|s| s.2).unwrap_or(255);
             for bit in 0..data.len() * 8 {
                 let mut m = data.clone();
                 m[bit / 8] ^= 1 << (bit % 8);
-                match load_strict(&m, enc) {
+                match load_any(&m, is_change) {
                     Err(p) => rep.fail(&["C14", "C15"], &format!("panic|load|{}", p.signature()),
                         &format!("load of {} with bit {} flipped panicked: {} at {}", what, bit, p.message, p.location), json!({"bytes": hex(&data), "bit": bit})),
                     Ok(Err(_)) => {}
-                    Ok(Ok(d)) => {
-                        let same = fingerprint(&d, &w.cands) == orig;
-                        let sig = format!("store|bitflip-accepted|{}|chunk-type-{}", if same { "same-doc" } else { "different-doc" }, ty_at(bit / 8));
-                        rep.fail(&["C14"], &sig, &format!("{} with bit {} of {} flipped loads without error ({} document)", what, bit, data.len() * 8,
-                            if same { "the same" } else { "a DIFFERENT" }), json!({"bytes": hex(&data), "bit": bit, "what": what}));
+                    Ok(Ok(fp)) => {
+                        let same = fp == orig;
+                        // where in its chunk the accepted flip sits: the last byte of a compressed change is where
+                        // DEFLATE pads to a byte boundary (known finding); anything else is a different failure
+                        let place = match spans.iter().find(|s| s.0 <= bit / 8 && bit / 8 < s.1) {
+                            Some(s) if bit / 8 == s.1 - 1 => "last-byte",
+                            Some(s) if bit / 8 < s.0 + 4 => "magic",
+                            Some(s) if bit / 8 < s.0 + 8 => "checksum",
+                            Some(s) if bit / 8 == s.0 + 8 => "type",
+                            Some(_) => "body",
+                            None => "outside",
+                        };
+                        let sig = format!("store|bitflip-accepted|{}|chunk-type-{}|{}", if same { "same-doc" } else { "different-doc" }, ty_at(bit / 8), place);
+                        rep.fail(&["C14"], &sig, &format!("{} with bit {} of {} flipped loads without error ({} content)", what, bit, data.len() * 8,
+                            if same { "the same" } else { "DIFFERENT" }), json!({"bytes": hex(&data), "bit": bit, "what": what}));
                     }
                 }
                 rep.case(None);
